@@ -25,6 +25,14 @@ R18.6 ``get_volume``: the radial and the axial coordinate handed to each
 R18.7 axis-swap symmetry of the contour moments: the polynomial of a_qp is
       the x↔y image of a_pq (sign from the orientation), scaled by the same
       constant; the central moments are defined symmetrically.
+R18.10 event-wise accessors (``__getitem__``) of the fmt_tdms columns: an
+      array that the accessor fills in place and returns is allocated in that
+      call, never an instance attribute / module-level buffer (or a view of
+      one) that the next call overwrites.
+R18.11 every ``parse_version(x) <op> parse_version("X")`` of feat_defect.py
+      is evaluated (PEP 440 ordering model) on release, post, local, dev and
+      pre-release strings around X: the verdict moves only at a final release
+      (builds between two releases get the verdict of the earlier release).
 """
 from __future__ import annotations
 
@@ -2180,6 +2188,364 @@ def r189(ctx, repo):
 
 
 
+# ----------------------------------------------------------------------
+# R18.10 event-wise accessors of the tdms columns: an array that the accessor
+# fills in place and returns is allocated in that call
+
+TDMS_COLUMNS = ["dclab/rtdc_dataset/fmt_tdms/event_mask.py",
+                "dclab/rtdc_dataset/fmt_tdms/event_image.py",
+                "dclab/rtdc_dataset/fmt_tdms/event_contour.py",
+                "dclab/rtdc_dataset/fmt_tdms/event_trace.py"]
+MODULE_NAMES = {"np", "numpy", "ndi", "True", "False", "None"}
+
+
+def _local_defs(fn):
+    defs = {}
+    for n in walk(fn):
+        if isinstance(n, ast.Assign):
+            for t in n.targets:
+                if isinstance(t, ast.Name):
+                    defs.setdefault(t.id, []).append(n.value)
+                elif isinstance(t, (ast.Tuple, ast.List)):
+                    for e in t.elts:
+                        if isinstance(e, ast.Name):
+                            defs.setdefault(e.id, []).append(
+                                ("unpack", n.value))
+        elif isinstance(n, (ast.AnnAssign, ast.NamedExpr)) and isinstance(
+                n.target, ast.Name) and n.value is not None:
+            defs.setdefault(n.target.id, []).append(n.value)
+        elif isinstance(n, ast.For):
+            for b in _bound(n.target):
+                defs.setdefault(b, []).append(("iter", n.iter))
+        elif isinstance(n, (ast.With,)):
+            for it_ in n.items:
+                if it_.optional_vars is not None:
+                    for b in _bound(it_.optional_vars):
+                        defs.setdefault(b, []).append(("unpack",
+                                                       it_.context_expr))
+        elif isinstance(n, ast.ExceptHandler) and n.name:
+            defs.setdefault(n.name, []).append(("unpack", n))
+    return defs
+
+
+def _inplace_updates(fn):
+    """(node, target expression) of every in-place update in `fn`"""
+    muts = []
+    for n in walk(fn):
+        if isinstance(n, ast.AugAssign):
+            muts.append((n, n.target))
+        elif isinstance(n, ast.Assign):
+            for t in n.targets:
+                for e in (t.elts if isinstance(t, (ast.Tuple, ast.List))
+                          else [t]):
+                    if isinstance(e, ast.Subscript):
+                        muts.append((n, e))
+        elif isinstance(n, ast.Call):
+            for kw in ("out", "output"):
+                o = kwarg(n, kw)
+                if o is not None and not isinstance(o, ast.Constant):
+                    muts.append((n, o))
+            if isinstance(n.func, ast.Attribute) and n.func.attr in (
+                    "sort", "fill", "resize", "itemset", "put", "partition",
+                    "setfield", "byteswap") and not (
+                        isinstance(n.func.value, ast.Name)
+                        and n.func.value.id in ("np", "numpy")):
+                muts.append((n, n.func.value))
+    return muts
+
+
+def r1810(ctx, repo):
+    n_acc = 0
+    for rel in TDMS_COLUMNS:
+        for q, fn in repo.all_functions(rel):
+            if fn.name != "__getitem__" or "." not in q:
+                continue
+            n_acc += 1
+            a = fn.args
+            params = {x.arg for x in a.args + a.kwonlyargs}
+            selfname = a.args[0].arg if a.args else None
+            defs = _local_defs(fn)
+
+            def persists(e, seen=()):
+                """-> description of the object outliving the call that `e`
+                may share memory with, or None"""
+                if isinstance(e, tuple):
+                    return persists(e[1], seen) if e[0] == "iter" else None
+                if isinstance(e, ast.Name):
+                    if e.id in seen or e.id in MODULE_NAMES:
+                        return None
+                    if e.id not in defs:
+                        if e.id in params:
+                            return None      # the caller's object
+                        return f"the module-level object `{e.id}`"
+                    hits = [persists(v, seen + (e.id,)) for v in defs[e.id]]
+                    hits = [h for h in hits if h]
+                    return hits[0] if hits else None
+                if isinstance(e, ast.Attribute):
+                    if isinstance(e.value, ast.Name) and e.value.id == \
+                            selfname:
+                        return f"the instance attribute `{txt(e)}`"
+                    if e.attr in VIEW_METHODS:
+                        return persists(e.value, seen)
+                    return persists(e.value, seen)
+                if isinstance(e, ast.Subscript):
+                    h = persists(e.value, seen)
+                    return h and f"an element/view of {h}"
+                if isinstance(e, ast.IfExp):
+                    return persists(e.body, seen) or persists(e.orelse, seen)
+                if isinstance(e, ast.BoolOp):
+                    hs = [persists(v, seen) for v in e.values]
+                    hs = [h for h in hs if h]
+                    return hs[0] if hs else None
+                if isinstance(e, ast.NamedExpr):
+                    return persists(e.value, seen)
+                if isinstance(e, ast.Call):
+                    cn = call_name(e) or ""
+                    if cn == "np.array":
+                        if _falsy_copy(e) and e.args:
+                            return persists(e.args[0], seen)
+                        return None
+                    if cn in VIEW_CALLS and e.args:
+                        return persists(e.args[0], seen)
+                    if cn in ("getattr",) and e.args:
+                        return persists(ast.Attribute(
+                            value=e.args[0], attr="?", ctx=ast.Load()), seen)
+                    if isinstance(e.func, ast.Attribute):
+                        if e.func.attr in VIEW_METHODS:
+                            return persists(e.func.value, seen)
+                        if e.func.attr == "astype" and _falsy_copy(e):
+                            return persists(e.func.value, seen)
+                        if e.func.attr in ("setdefault", "get") and \
+                                persists(e.func.value, seen):
+                            return persists(e.func.value, seen)
+                    return None      # result of a call: new or unknown
+                return None
+
+            returned = [r.value for r in walk(fn)
+                        if isinstance(r, ast.Return) and r.value is not None]
+            ret_pers = [h for h in (persists(r) for r in returned) if h]
+            per_base = {}
+            for node, target in _inplace_updates(fn):
+                base = target
+                while isinstance(base, ast.Subscript):
+                    base = base.value
+                if isinstance(target, ast.Name) and isinstance(
+                        node, ast.AugAssign):
+                    vals = defs.get(target.id, [])
+                    if vals and all(isinstance(v, ast.Constant)
+                                    for v in vals):
+                        continue       # rebinding of a scalar
+                per_base.setdefault(txt(base), []).append((node, base))
+            for name, items in per_base.items():
+                node, base = items[0]
+                h = persists(base)
+                handed = h is not None and any(
+                    h.split("`")[1] == r.split("`")[1] for r in ret_pers
+                    if "`" in h and "`" in r)
+                ctx.ob("R18.10", not handed,
+                       f"{len(items)} in-place update(s) of `{name}` in {q} "
+                       f"act on an array allocated in this call"
+                       if h is None else
+                       f"{q} updates `{name}` ({h}) in place, the buffer is "
+                       f"not handed out" if not handed else
+                       f"`{short(node, 50)}` fills `{name}` in place, which "
+                       f"is {h}, and {q} returns it: every call hands out "
+                       f"the same array and the next call overwrites the "
+                       f"data returned before (masks / images of two events "
+                       f"alive at the same time are identical)", node=node,
+                       key=f"{rel}::{q}::in-place update of {name}")
+    if n_acc < 4:
+        raise AnalysisError("event-wise accessors (__getitem__) of the tdms "
+                            "columns not found")
+
+
+# ----------------------------------------------------------------------
+# R18.11 version predicates of feat_defect.py on a table of PEP 440 versions
+
+FDEFECT = "dclab/rtdc_dataset/fmt_hdf5/feat_defect.py"
+_V_RE = re.compile(
+    r"^\s*v?(?:(?P<epoch>[0-9]+)!)?(?P<release>[0-9]+(?:\.[0-9]+)*)"
+    r"(?P<pre>[-_\.]?(?P<pre_l>alpha|a|beta|b|preview|pre|c|rc)[-_\.]?"
+    r"(?P<pre_n>[0-9]+)?)?"
+    r"(?P<post>(?:-(?P<post_n1>[0-9]+))|(?:[-_\.]?(?P<post_l>post|rev|r)"
+    r"[-_\.]?(?P<post_n2>[0-9]+)?))?"
+    r"(?P<dev>[-_\.]?(?P<dev_l>dev)[-_\.]?(?P<dev_n>[0-9]+)?)?"
+    r"(?:\+(?P<local>[a-z0-9]+(?:[-_\.][a-z0-9]+)*))?\s*$", re.I)
+_NEG, _POS = (0,), (2,)
+
+
+def pep440_key(v):
+    """ordering key of a PEP 440 version string (the analyser's model of
+    packaging.version.Version._key)"""
+    m = _V_RE.match(v)
+    if m is None:
+        raise AnalysisError(f"version model: cannot parse '{v}'")
+    rel = [int(x) for x in m.group("release").split(".")]
+    while len(rel) > 1 and rel[-1] == 0:
+        rel.pop()
+    pre = post = dev = None
+    if m.group("pre"):
+        letter = {"alpha": "a", "beta": "b", "c": "rc", "pre": "rc",
+                  "preview": "rc"}.get(m.group("pre_l").lower(),
+                                       m.group("pre_l").lower())
+        pre = (letter, int(m.group("pre_n") or 0))
+    if m.group("post"):
+        post = int(m.group("post_n1") or m.group("post_n2") or 0)
+    if m.group("dev"):
+        dev = int(m.group("dev_n") or 0)
+    if pre is None and post is None and dev is not None:
+        kpre = _NEG
+    elif pre is None:
+        kpre = _POS
+    else:
+        kpre = (1, pre)
+    kpost = _NEG if post is None else (1, post)
+    kdev = _POS if dev is None else (1, dev)
+    if m.group("local") is None:
+        kloc = _NEG
+    else:
+        kloc = (1, tuple((1, int(p), "") if p.isdigit() else (0, 0, p.lower())
+                         for p in re.split(r"[-_\.]", m.group("local"))))
+    return (int(m.group("epoch") or 0), tuple(rel), kpre, kpost, kdev, kloc)
+
+
+def _is_final(v):
+    m = _V_RE.match(v)
+    return bool(m) and not (m.group("pre") or m.group("post")
+                            or m.group("dev") or m.group("local"))
+
+
+_CMP = {ast.Lt: lambda a, b: a < b, ast.LtE: lambda a, b: a <= b,
+        ast.Gt: lambda a, b: a > b, ast.GtE: lambda a, b: a >= b}
+
+
+def r1811(ctx, repo):
+    tree = repo.tree(FDEFECT)
+    alias = set()
+    for st in tree.body:
+        if isinstance(st, ast.ImportFrom) and "packaging" in (st.module or ""):
+            for a in st.names:
+                if a.name in ("parse", "Version"):
+                    alias.add(a.asname or a.name)
+    if not alias:
+        raise AnalysisError("feat_defect.py: the version parser "
+                            "(external.packaging.parse) is not imported")
+
+    def is_parse(e):
+        return isinstance(e, ast.Call) and isinstance(e.func, ast.Name) \
+            and e.func.id in alias and len(e.args) == 1 and not e.keywords
+
+    n_cmp = 0
+    for q, fn in repo.all_functions(FDEFECT):
+        defs = _local_defs(fn)
+
+        def resolve(e, depth=0):
+            """-> the parse call behind an operand (through
+            single-assignment locals)"""
+            if isinstance(e, ast.Name) and depth < 4:
+                vals = defs.get(e.id, [])
+                if len(vals) == 1 and isinstance(vals[0], ast.AST):
+                    return resolve(vals[0], depth + 1)
+                if not vals:
+                    g = repo.module_assign(FDEFECT, e.id, missing_ok=True)
+                    if g is not None:
+                        return resolve(g, depth + 1)
+            return e
+
+        def const_of(call):
+            a = resolve(call.args[0])
+            return a.value if isinstance(a, ast.Constant) and isinstance(
+                a.value, str) else None
+
+        calls = [c for c in walk(fn) if is_parse(c)]
+        if not calls:
+            continue
+        compares = [c for c in walk(fn) if isinstance(c, ast.Compare)
+                    and any(is_parse(resolve(o))
+                            for o in [c.left] + c.comparators)]
+        used = set()
+        for c in compares:
+            ops = [resolve(o) for o in [c.left] + c.comparators]
+            if len(ops) != 2 or not all(is_parse(o) for o in ops) \
+                    or type(c.ops[0]) not in _CMP:
+                raise AnalysisError(
+                    f"feat_defect.{q}: version comparison `{txt(c)}` is not "
+                    f"of the form parse(x) <|<=|>|>= parse('X')")
+            used.update(id(o) for o in ops)
+            consts = [const_of(o) for o in ops]
+            if (consts[0] is None) == (consts[1] is None):
+                raise AnalysisError(
+                    f"feat_defect.{q}: `{txt(c)}` does not compare a file's "
+                    f"version with one constant bound")
+            bound = consts[0] if consts[0] is not None else consts[1]
+            if not _is_final(bound):
+                raise AnalysisError(
+                    f"feat_defect.{q}: the bound '{bound}' is not a final "
+                    f"release")
+            op = _CMP[type(c.ops[0])]
+            kb = pep440_key(bound)
+
+            def verdict(v):
+                kv = pep440_key(v)
+                return op(kb, kv) if consts[0] is not None else op(kv, kb)
+
+            def bump(rel, d):
+                rel = list(rel)
+                if d > 0:
+                    rel[-1] += 1
+                    return rel
+                for i in range(len(rel) - 1, -1, -1):
+                    if rel[i] > 0:
+                        rel[i] -= 1
+                        return rel[:i + 1] + [0] * (len(rel) - i - 1)
+                return None
+
+            rel = [int(x) for x in _V_RE.match(bound).group(
+                "release").split(".")]
+            bad = None
+            n_v = 0
+            for base in (bump(rel, -1), rel):
+                if base is None:
+                    continue
+                r_ = ".".join(map(str, base))
+                nx = ".".join(map(str, bump(base, +1)))
+                group = [r_, f"{r_}.post1", f"{r_}.post4",
+                         f"{r_}+g1f2e3d4", f"{r_}.post4+g1f2e3d4.d20240101",
+                         f"{nx}.dev3", f"{nx}.dev3+g1f2e3d4", f"{nx}a1",
+                         f"{nx}b2", f"{nx}rc1"]
+                lo, hi = pep440_key(r_), pep440_key(nx)
+                for v in group:
+                    if not lo <= pep440_key(v) < hi:
+                        raise AnalysisError(f"version model: '{v}' is not "
+                                            f"between {r_} and {nx}")
+                n_v += len(group)
+                want = verdict(r_)
+                odd = [v for v in group if verdict(v) != want]
+                if odd and bad is None:
+                    bad = (r_, nx, want, odd)
+            n_cmp += 1
+            ctx.ob("R18.11", bad is None,
+                   f"`{txt(c)}`: the verdict changes only at the release "
+                   f"{bound}; post-release, local, development and "
+                   f"pre-release builds between two releases get the verdict "
+                   f"of the earlier release ({n_v} version strings)"
+                   if bad is None else
+                   f"`{txt(c)}` is {bad[2]} for the release {bad[0]} but "
+                   f"{not bad[2]} for {', '.join(bad[3][:4])}, builds made "
+                   f"from the code between {bad[0]} and {bad[1]} (what "
+                   f"setuptools_scm stamps on every untagged installation): "
+                   f"the stored feature of such files is judged differently "
+                   f"from the release it was computed with", node=c,
+                   label=f"version bound of {q} moves only at a release")
+        loose = [c for c in calls if id(c) not in used]
+        if loose:
+            raise AnalysisError(
+                f"feat_defect.{q}: `{txt(loose[0])}` is not an operand of a "
+                f"recognised version comparison")
+    if n_cmp < 3:
+        raise AnalysisError("feat_defect.py: version comparisons not found")
+
+
 def run(ctx):
     repo = ctx.repo
     ctx.rule("R18.1", "optional array-valued bg_off is tested with `is (not) "
@@ -2202,6 +2568,13 @@ def run(ctx):
     ctx.rule("R18.8", "in-place updates in the feature functions act on "
              "arrays the function allocated, never on (views of) its "
              "arguments", minimum=8)
+    ctx.rule("R18.10", "event-wise accessors of the tdms columns return an "
+             "array of their own: what they fill in place and return is "
+             "allocated in that call", minimum=2)
+    ctx.rule("R18.11", "version predicates of feat_defect.py evaluated on "
+             "release / post / local / dev / pre-release strings around "
+             "their bound: the verdict moves only at a final release",
+             minimum=4)
     r181(ctx, repo)
     r182(ctx, repo)
     r183(ctx, repo)
@@ -2213,6 +2586,8 @@ def run(ctx):
     r188(ctx, repo)
     r189(ctx, repo)
     r189_scalar(ctx, repo)
+    r1810(ctx, repo)
+    r1811(ctx, repo)
 
 
 MUTANTS = [
@@ -2907,4 +3282,75 @@ MUTANTS = list(MUTANTS) + [
      INERT,
      ('        if m["m00"] > dbl_epsilon:', '        if m["m00"] > flt_epsilon:'),
      "R18.7"),
+]
+
+# round-7 seeded changes (/verif/seeded/C18_19, C18_20)
+TDMS_MASK = "dclab/rtdc_dataset/fmt_tdms/event_mask.py"
+_MASK_ALLOC = "        mask = np.zeros(self._img_shape, dtype=bool)\n"
+_VOL_CMP = 'parse_version(dclab_version) < parse_version("0.37.0")'
+
+MUTANTS = list(MUTANTS) + [
+    ("tdms mask allocated once per column and refilled (seeded)", TDMS_MASK,
+     [("        self._img_shape_cache = None\n",
+       "        self._img_shape_cache = None\n"
+       "        self._mask_cache = None\n"),
+      (_MASK_ALLOC,
+       "        if self._mask_cache is None:\n"
+       "            self._mask_cache = np.zeros(self._img_shape, dtype=bool)\n"
+       "        mask = self._mask_cache\n"
+       "        mask[:] = False\n")], "R18.10"),
+    ("tdms mask filled into a module-level scratch array", TDMS_MASK,
+     [("class MaskColumn(object):\n",
+       "_SCRATCH = {}\n\n\nclass MaskColumn(object):\n"),
+      (_MASK_ALLOC,
+       "        mask = _SCRATCH.setdefault(\n"
+       "            self._img_shape, np.zeros(self._img_shape, dtype=bool))\n"
+       "        mask.fill(False)\n")], "R18.10"),
+    ("tdms mask: view of a per-instance buffer returned", TDMS_MASK,
+     [("        self._img_shape_cache = None\n",
+       "        self._img_shape_cache = None\n"
+       "        self._buf = np.zeros((1024, 1024), dtype=bool)\n"),
+      (_MASK_ALLOC,
+       "        sy, sx = self._img_shape\n"
+       "        mask = self._buf[:sy, :sx]\n"
+       "        mask[:] = False\n")], "R18.10"),
+    ("volume defect bound aligned with the docstring: <= 0.36.1 (seeded)",
+     FDEFECT,
+     (_VOL_CMP, 'parse_version(dclab_version) <= parse_version("0.36.1")'),
+     "R18.11"),
+    ("inertia defect bound as `not > last bad release`", FDEFECT,
+     ('parse_version(dclab_version) < parse_version("0.48.3")',
+      'not parse_version(dclab_version) > parse_version("0.48.2")'),
+     "R18.11"),
+    ("Shape-In trusted after 2.0.4 instead of from 2.0.5 on", FDEFECT,
+     ('parse_version(si_version) >= parse_version("2.0.5")',
+      'parse_version(si_version) > parse_version("2.0.4")'), "R18.11"),
+]
+
+TWINS = list(TWINS) + [
+    ("tdms mask allocated with np.full and kept for debugging on self",
+     TDMS_MASK,
+     (_MASK_ALLOC,
+      "        mask = np.full(self._img_shape, False, dtype=bool)\n"
+      "        self._last_idx = idx\n")),
+    ("tdms mask filled through a local alias of the contour column",
+     TDMS_MASK,
+     ("        conti = self.contour[idx]\n"
+      "        mask[conti[:, 1], conti[:, 0]] = True\n",
+      "        contour = self.contour\n"
+      "        conti = contour[idx]\n"
+      "        ys, xs = conti[:, 1], conti[:, 0]\n"
+      "        mask[ys, xs] = True\n")),
+    ("volume defect bound through a named constant, operands swapped",
+     FDEFECT,
+     [(_VOL_CMP,
+       "parse_version(VOLUME_FIXED_IN) > parse_version(dclab_version)"),
+      ("def get_software_version_from_h5(h5):",
+       "VOLUME_FIXED_IN = \"0.37.0\"\n\n\n"
+       "def get_software_version_from_h5(h5):")]),
+    ("time defect bound with pre-parsed local operands", FDEFECT,
+     ('        if parse_version(dclab_version) < parse_version("0.47.6"):\n',
+      '        written_with = parse_version(dclab_version)\n'
+      '        fixed_in = parse_version("0.47.6")\n'
+      '        if not written_with >= fixed_in:\n')),
 ]
